@@ -61,6 +61,16 @@ Qed.
 Lemma cells_of_sorted H W : StronglySorted cell_lt (cells_of (Z.of_nat H) (Z.of_nat W)).
 Proof. unfold cells_of. rewrite !Nat2Z.id. apply cells_sorted_gen. Qed.
 
+Lemma cells_length_gen W : forall n s,
+  length (flat_map (fun y => map (fun x => (y, x)) (seq 0 W)) (seq s n)) = (n * W)%nat.
+Proof.
+  induction n as [|n IH]; intros s; simpl; auto.
+  rewrite app_length, map_length, seq_length, IH. reflexivity.
+Qed.
+
+Lemma cells_of_length H W : length (cells_of (Z.of_nat H) (Z.of_nat W)) = (H * W)%nat.
+Proof. unfold cells_of. rewrite !Nat2Z.id. apply cells_length_gen. Qed.
+
 Lemma sorted_nodup l : StronglySorted cell_lt l -> NoDup l.
 Proof.
   induction 1 as [|a l Hs IH Hf]; constructor; auto.
@@ -242,5 +252,303 @@ Section Fill.
     - (* up *) do 3 apply dir_push_incl. replace (cy, cx) with ((S cy - 1)%nat, cx) by (f_equal; lia). apply dir_push_new.
       + apply Z.ltb_lt. lia.
       + apply flag0. replace (S cy - 1 + 1)%nat with (S cy) by lia. replace (S cy - 1)%nat with cy by lia. auto.
+  Qed.
+
+  (* ---------------------------------------------------------------- one fill *)
+  Section OneFill.
+    Variable k : Z.
+    Variable seed : cell.
+    Hypothesis Hk : 0 <= k.
+    Definition R (c : cell) : Prop := inb c /\ rid c = k.
+    Hypothesis Hseed : R seed.
+
+    Lemma path_assigned g : (forall c c', R c -> getc g c = Ok k -> R c' -> adjacent c c' -> getc g c' = Ok k) ->
+      forall a b, path a b -> R a -> getc g a = Ok k -> R b /\ getc g b = Ok k.
+    Proof.
+      intros Hclosed a b Hp. induction Hp as [a Ha|a b c Hp IH Hc Hadj Hrid]; intros Ra Hga; [split; auto|].
+      destruct (IH Ra Hga) as [Rb Hgb].
+      assert (Rc : R c) by (split; auto; destruct Rb; congruence).
+      split; [exact Rc|]. exact (Hclosed b c Rb Hgb Rc Hadj).
+    Qed.
+
+    Lemma fill_loop_inv : forall fuel g' stack,
+      wfg H W g' ->
+      (forall c, R c -> getc g' c = Ok (-1) \/ getc g' c = Ok k) ->
+      (forall c, In c stack -> R c) ->
+      (forall c c', R c -> getc g' c = Ok k -> R c' -> adjacent c c' -> getc g' c' = Ok k \/ In c' stack) ->
+      (getc g' seed = Ok k \/ In seed stack) ->
+      (length stack + 4 * U g' < fuel)%nat ->
+      exists g'', fill_loop fuel (Z.of_nat H) (Z.of_nat W) vg hg g' stack k = Ok g'' /\ wfg H W g'' /\
+        (forall c, inb c -> rid c <> k -> getc g'' c = getc g' c) /\ (forall c, R c -> getc g'' c = Ok k).
+    Proof.
+      induction fuel as [|f IH]; intros g' stack Hw H3 H4 H5 H6 H7; [lia|].
+      destruct stack as [|[y x] st].
+      - exists g'. split; [reflexivity|]. split; [exact Hw|]. split; [auto|].
+        intros c Rc. destruct H6 as [H6|[]].
+        assert (Hcl : forall c c', R c -> getc g' c = Ok k -> R c' -> adjacent c c' -> getc g' c' = Ok k).
+        { intros a b Ra Hga Rb Hadj. destruct (H5 a b Ra Hga Rb Hadj) as [?|[]]; auto. }
+        destruct Hseed as [Hsi Hsr]. destruct Rc as [Hci Hcr].
+        destruct (path_assigned g' Hcl seed c (rooms_connected seed c Hsi Hci ltac:(congruence)) (conj Hsi Hsr) H6); auto.
+      - assert (Rc : R (y, x)) by (apply H4; left; auto). pose proof Rc as [Hin Hr].
+        rewrite fill_loop_unfold by auto.
+        change (grid_get g' y x) with (getc g' (y, x)).
+        destruct (H3 _ Rc) as [Hg|Hg]; rewrite Hg.
+        + (* not visited yet *)
+          change (negb (-1 =? -1)) with false. cbv iota.
+          set (g2 := grid_set g' y x k).
+          assert (Hw2 : wfg H W g2) by (apply grid_set_wfg; auto).
+          assert (Hsame : getc g2 (y, x) = Ok k).
+          { unfold getc, g2. simpl. destruct Hin. apply (grid_get_set_same H W); auto. }
+          assert (Hoth : forall c, c <> (y, x) -> getc g2 c = getc g' c).
+          { intros c Hne. unfold getc, g2. apply grid_get_set_other. intros E. apply Hne. destruct c; simpl in *. congruence. }
+          assert (HU : (U g2 + 1 = U g')%nat).
+          { unfold g2. apply (U_set g' (y, x) k); auto. lia. }
+          destruct (IH g2 (pushes y x st)) as (g'' & Hfl & Hw'' & Hout & Hall); auto.
+          * intros c Rc'. destruct (cell_trichotomy c (y, x)) as [Hlt|[E|Hlt]].
+            -- rewrite Hoth; auto. intros E; subst. apply (cell_lt_irrefl _ Hlt).
+            -- subst. auto.
+            -- rewrite Hoth; auto. intros E; subst. apply (cell_lt_irrefl _ Hlt).
+          * intros c Hc. apply pushes_in in Hc as [Hc|(Hci & _ & Hcr)]; auto.
+            -- apply H4. right; auto.
+            -- split; auto. congruence.
+          * intros c c' Rc1 Hg1 Rc' Hadj.
+            assert (Hdec : c = (y, x) \/ c <> (y, x)).
+            { destruct (cell_trichotomy c (y, x)) as [Hlt|[E|Hlt]]; auto;
+                right; intros E; subst; apply (cell_lt_irrefl _ Hlt). }
+            destruct Hdec as [E|Hne].
+            -- subst c. right. destruct Rc' as [Hci' Hcr']. apply pushes_all; auto. congruence.
+            -- rewrite Hoth in Hg1 by auto.
+               destruct (H5 c c' Rc1 Hg1 Rc' Hadj) as [Hg'|[E|Hin']].
+               ++ left. assert (Hdec' : c' = (y, x) \/ c' <> (y, x)).
+                  { destruct (cell_trichotomy c' (y, x)) as [Hlt|[E|Hlt]]; auto;
+                      right; intros E; subst; apply (cell_lt_irrefl _ Hlt). }
+                  destruct Hdec' as [E|Hne']; [subst; auto|rewrite Hoth; auto].
+               ++ subst c'. left; auto.
+               ++ right. apply pushes_incl; auto.
+          * destruct H6 as [H6|[E|Hin']].
+            -- left. assert (Hdec' : seed = (y, x) \/ seed <> (y, x)).
+               { destruct (cell_trichotomy seed (y, x)) as [Hlt|[E|Hlt]]; auto;
+                   right; intros E; subst; apply (cell_lt_irrefl _ Hlt). }
+               destruct Hdec' as [E|Hne']; [rewrite E; auto|rewrite Hoth; auto].
+            -- left. rewrite <- E. auto.
+            -- right. apply pushes_incl; auto.
+          * pose proof (pushes_length y x st). simpl in H7. lia.
+          * exists g''. split; auto. split; auto. split; auto.
+            intros c Hci Hcr. rewrite Hout by auto. apply Hoth. intros E; subst. congruence.
+        + (* already visited *)
+          assert (Hnk : negb (k =? -1) = true) by (apply negb_true_iff, Z.eqb_neq; lia).
+          rewrite Hnk.
+          destruct (IH g' st) as (g'' & Hfl & Hw'' & Hout & Hall); auto.
+          * intros c Hc. apply H4. right; auto.
+          * intros c c' Rc1 Hg1 Rc' Hadj. destruct (H5 c c' Rc1 Hg1 Rc' Hadj) as [?|[E|?]]; auto.
+            subst c'. left; auto.
+          * destruct H6 as [?|[E|?]]; auto. left. rewrite <- E. auto.
+          * simpl in H7. lia.
+          * exists g''. auto.
+    Qed.
+  End OneFill.
+
+  (* ---------------------------------------------------------------- the scan over all cells *)
+  Variable heads : nat -> cell.      (* least cell of every room *)
+  Hypothesis heads_ok : forall i, (i < n)%nat ->
+    inb (heads i) /\ rid (heads i) = Z.of_nat i /\
+    forall c, inb c -> rid c = Z.of_nat i -> c = heads i \/ cell_lt (heads i) c.
+  Hypothesis heads_sorted : forall i j, (i < j < n)%nat -> cell_lt (heads i) (heads j).
+
+  Lemma filter_length_le' {A} (f : A -> bool) l : (length (filter f l) <= length l)%nat.
+  Proof. induction l; simpl; auto. destruct (f a); simpl; lia. Qed.
+
+  Lemma cells_length : length cells = (H * W)%nat.
+  Proof. apply cells_of_length. Qed.
+
+  Lemma sorted_after {A} (Rr : A -> A -> Prop) l1 a l2 : StronglySorted Rr (l1 ++ a :: l2) -> forall b, In b l2 -> Rr a b.
+  Proof.
+    induction l1 as [|x l1 IH]; simpl; intros Hs b Hb.
+    - inversion Hs as [|? ? _ Hf]; subst. rewrite Forall_forall in Hf. auto.
+    - inversion Hs; subst. eapply IH; eauto.
+  Qed.
+
+  Definition SInv (k : nat) (g : list (list Z)) (done : list cell) : Prop :=
+    wfg H W g /\
+    (forall c, inb c -> getc g c = Ok (if rid c <? Z.of_nat k then rid c else -1)) /\
+    (forall c, In c done -> rid c < Z.of_nat k) /\ (k <= n)%nat.
+
+  Lemma fill_all_inv : forall todo done k g, cells = done ++ todo -> SInv k g done ->
+    exists g', fill_all (Z.of_nat H) (Z.of_nat W) vg hg todo g (Z.of_nat k) = Ok (g', Z.of_nat n) /\
+      wfg H W g' /\ forall c, inb c -> getc g' c = Ok (rid c).
+  Proof.
+    induction todo as [|[y x] todo IH]; intros done k g Hcells (Hw & H2 & H3 & Hkn).
+    - rewrite app_nil_r in Hcells. subst done.
+      assert (k = n).
+      { destruct (Nat.eq_dec k n); auto. exfalso.
+        destruct (heads_ok k ltac:(lia)) as (Hi & Hr & _).
+        pose proof (H3 (heads k) (proj2 (cells_inb _) Hi)). lia. }
+      subst k. exists g. simpl. split; auto. split; auto.
+      intros c Hc. rewrite (H2 c Hc). pose proof (H3 c (proj2 (cells_inb _) Hc)) as Hlt.
+      apply Z.ltb_lt in Hlt. rewrite Hlt. reflexivity.
+    - assert (Hc : inb (y, x)). { apply cells_inb. rewrite Hcells. apply in_or_app. right. left. auto. }
+      cbn [fill_all]. change (grid_get g y x) with (getc g (y, x)). rewrite (H2 _ Hc).
+      destruct (Z.ltb_spec (rid (y, x)) (Z.of_nat k)) as [Hlt|Hge].
+      + (* already filled *)
+        pose proof (rid_range _ Hc) as Hrr.
+        assert (E : (rid (y, x) =? -1) = false) by (apply Z.eqb_neq; lia). rewrite E.
+        apply (IH (done ++ [(y, x)]) k g).
+        * rewrite <- app_assoc. exact Hcells.
+        * split; auto. split; auto. split; auto. intros c Hin. apply in_app_or in Hin as [Hin|[E'|[]]]; auto.
+          subst c. auto.
+      + (* a new room: it must be room k *)
+        change (-1 =? -1) with true. cbv iota.
+        pose proof (rid_range _ Hc) as Hrr.
+        assert (Hk : (k < n)%nat) by lia.
+        assert (Hrid : rid (y, x) = Z.of_nat k).
+        { destruct (Z.eq_dec (rid (y, x)) (Z.of_nat k)) as [|Hne]; auto. exfalso.
+          set (j := Z.to_nat (rid (y, x))). assert (Hj : (k < j < n)%nat) by (unfold j; lia).
+          destruct (heads_ok k Hk) as (Hmi & Hmr & _).
+          destruct (heads_ok j ltac:(lia)) as (_ & _ & Hleast).
+          specialize (Hleast (y, x) Hc ltac:(unfold j; lia)).
+          assert (Hm : In (heads k) cells) by (apply cells_inb; auto).
+          rewrite Hcells in Hm. apply in_app_or in Hm as [Hm|[Hm|Hm]].
+          - pose proof (H3 _ Hm). lia.
+          - rewrite <- Hm in Hmr. lia.
+          - assert (Hlt : cell_lt (y, x) (heads k)).
+            { eapply sorted_after; [|exact Hm]. rewrite <- Hcells. apply cells_of_sorted. }
+            pose proof (heads_sorted k j Hj) as Hkj.
+            destruct Hleast as [E|Hl].
+            + rewrite E in Hlt. apply (cell_lt_irrefl (heads j)). eapply cell_ltb_trans; eauto.
+            + apply (cell_lt_irrefl (heads j)). eapply cell_ltb_trans; [exact Hl|]. eapply cell_ltb_trans; eauto. }
+        destruct (fill_loop_inv (Z.of_nat k) (y, x) ltac:(lia) (conj Hc Hrid) (fill_fuel (Z.of_nat H) (Z.of_nat W)) g [(y, x)])
+          as (g'' & Hfl & Hw'' & Hout & Hall); auto.
+        * intros c [Hci Hcr]. left. rewrite (H2 c Hci). rewrite Hcr. rewrite Z.ltb_irrefl. reflexivity.
+        * intros c [E|[]]. subst. split; auto.
+        * intros c c' [Hci Hcr] Hg. rewrite (H2 c Hci) in Hg. rewrite Hcr, Z.ltb_irrefl in Hg. inversion Hg. lia.
+        * right. left. reflexivity.
+        * unfold fill_fuel. rewrite !Nat2Z.id. pose proof (filter_length_le' (unassigned g) cells) as Hle.
+          fold (U g) in Hle. rewrite cells_length in Hle. simpl length. lia.
+        * rewrite Hfl.
+          replace (Z.of_nat k + 1) with (Z.of_nat (S k)) by lia.
+          apply (IH (done ++ [(y, x)]) (S k) g'').
+          -- rewrite <- app_assoc. exact Hcells.
+          -- split; auto. split; [|split; [|lia]].
+             ++ intros c Hci. destruct (Z.eq_dec (rid c) (Z.of_nat k)) as [E|Hne].
+                ** rewrite (Hall c (conj Hci E)). rewrite E.
+                   assert (Hl : (Z.of_nat k <? Z.of_nat (S k)) = true) by (apply Z.ltb_lt; lia). rewrite Hl. reflexivity.
+                ** rewrite (Hout c Hci Hne), (H2 c Hci).
+                   destruct (Z.ltb_spec (rid c) (Z.of_nat k)); destruct (Z.ltb_spec (rid c) (Z.of_nat (S k))); auto; lia.
+             ++ intros c Hin. apply in_app_or in Hin as [Hin|[E'|[]]].
+                ** pose proof (H3 c Hin). lia.
+                ** subst c. lia.
+  Qed.
+
+  Theorem fill_all_correct :
+    exists g, fill_all (Z.of_nat H) (Z.of_nat W) vg hg cells (neg_grid (Z.of_nat H) (Z.of_nat W)) 0 = Ok (g, Z.of_nat n) /\
+      wfg H W g /\ forall c, inb c -> getc g c = Ok (rid c).
+  Proof.
+    apply (fill_all_inv cells [] 0%nat); auto.
+    rewrite neg_grid_mk. split; [apply mk_grid_wfg|]. split; [|split; [intros c []|lia]].
+    intros c [Hy Hx]. unfold getc. rewrite mk_grid_get by auto.
+    pose proof (rid_range c (conj Hy Hx)). destruct (Z.ltb_spec (rid c) (Z.of_nat 0)); auto. lia.
+  Qed.
+
+  (* ---------------------------------------------------------------- after the scan *)
+  Lemma redundant_ok g : (forall c, inb c -> getc g c = Ok (rid c)) ->
+    forall l, (forall c, In c l -> inb c) ->
+    redundant_check (Z.of_nat H) (Z.of_nat W) vg hg g l = Ok tt.
+  Proof.
+    intros Hg. induction l as [|[y x] l IH]; intros Hl; simpl; auto.
+    assert (Hc : inb (y, x)) by (apply Hl; left; auto). destruct Hc as [Hy Hx]. simpl in Hy, Hx.
+    assert (E1 : (if Z.of_nat y <? Z.of_nat H - 1
+                  then match grid_get hg y x with
+                       | Err e => Err e
+                       | Ok b => if b =? 0 then Ok tt else
+                           match grid_get g y x with
+                           | Err e => Err e
+                           | Ok a => match grid_get g (y + 1) x with
+                                     | Err e => Err e
+                                     | Ok a' => if a =? a' then Err ValueError else Ok tt
+                                     end
+                           end
+                       end
+                  else Ok tt) = Ok tt).
+    { destruct (Z.ltb_spec (Z.of_nat y) (Z.of_nat H - 1)) as [Hlt|]; auto.
+      unfold hg. rewrite mk_grid_get by lia. unfold hflag.
+      destruct (Z.eqb_spec (rid (y, x)) (rid ((y + 1)%nat, x))) as [|Hne]; auto. cbn [Z.eqb].
+      change (grid_get g y x) with (getc g (y, x)). change (grid_get g (y + 1) x) with (getc g ((y + 1)%nat, x)).
+      rewrite !Hg by (unfold inb; simpl; lia). apply Z.eqb_neq in Hne. rewrite Hne. reflexivity. }
+    rewrite E1.
+    assert (E2 : (if Z.of_nat x <? Z.of_nat W - 1
+                  then match grid_get vg y x with
+                       | Err e => Err e
+                       | Ok b => if b =? 0 then Ok tt else
+                           match grid_get g y x with
+                           | Err e => Err e
+                           | Ok a => match grid_get g y (x + 1) with
+                                     | Err e => Err e
+                                     | Ok a' => if a =? a' then Err ValueError else Ok tt
+                                     end
+                           end
+                       end
+                  else Ok tt) = Ok tt).
+    { destruct (Z.ltb_spec (Z.of_nat x) (Z.of_nat W - 1)) as [Hlt|]; auto.
+      unfold vg. rewrite mk_grid_get by lia. unfold vflag.
+      destruct (Z.eqb_spec (rid (y, x)) (rid (y, (x + 1)%nat))) as [|Hne]; auto. cbn [Z.eqb].
+      change (grid_get g y x) with (getc g (y, x)). change (grid_get g y (x + 1)) with (getc g (y, (x + 1)%nat)).
+      rewrite !Hg by (unfold inb; simpl; lia). apply Z.eqb_neq in Hne. rewrite Hne. reflexivity. }
+    rewrite E2. apply IH. intros c Hin. apply Hl. right; auto.
+  Qed.
+
+  Definition room_cells_of (l : list cell) (i : nat) : list cell := filter (fun c => rid c =? Z.of_nat i) l.
+
+  Lemma collect_inv g : (forall c, inb c -> getc g c = Ok (rid c)) ->
+    forall todo done rs, (forall c, In c todo -> inb c) -> length rs = n ->
+    (forall i, (i < n)%nat -> nth i rs [] = map cell_to_pv (room_cells_of done i)) ->
+    exists rs', collect_rooms g todo rs = Ok rs' /\ length rs' = n /\
+      forall i, (i < n)%nat -> nth i rs' [] = map cell_to_pv (room_cells_of (done ++ todo) i).
+  Proof.
+    intros Hg. induction todo as [|[y x] todo IH]; intros done rs Hl Hlen Hrs.
+    - exists rs. rewrite app_nil_r. auto.
+    - assert (Hc : inb (y, x)) by (apply Hl; left; auto). pose proof (rid_range _ Hc) as Hr.
+      cbn [collect_rooms]. change (grid_get g y x) with (getc g (y, x)). rewrite (Hg _ Hc).
+      assert (E : (rid (y, x) =? -1) = false) by (apply Z.eqb_neq; lia). rewrite E.
+      unfold wrap_index. rewrite Hlen.
+      assert (E2 : ((0 <=? rid (y, x)) && (rid (y, x) <? Z.of_nat n)) = true).
+      { apply andb_true_iff. split; [apply Z.leb_le|apply Z.ltb_lt]; lia. }
+      rewrite E2. set (i0 := Z.to_nat (rid (y, x))).
+      destruct (IH (done ++ [(y, x)]) (set_nth rs i0 (nth i0 rs [] ++ [cell_pv y x]))) as (rs' & Hco & Hlen' & Hrs').
+      + intros c Hin. apply Hl. right; auto.
+      + rewrite set_nth_length. auto.
+      + intros i Hi. unfold room_cells_of. rewrite filter_app. fold (room_cells_of done i). simpl.
+        destruct (Nat.eq_dec i i0) as [Ei|Hne].
+        * subst i. rewrite nth_set_nth_same by lia.
+          assert (Er : (rid (y, x) =? Z.of_nat i0) = true) by (apply Z.eqb_eq; unfold i0; lia).
+          rewrite Er. rewrite map_app. simpl. rewrite (Hrs i0 Hi). reflexivity.
+        * assert (Er : (rid (y, x) =? Z.of_nat i) = false) by (apply Z.eqb_neq; unfold i0 in Hne; lia).
+          rewrite Er. rewrite app_nil_r. rewrite nth_set_nth_other by auto. apply Hrs; auto.
+      + exists rs'. split; auto. split; auto. intros i Hi. rewrite (Hrs' i Hi). rewrite <- app_assoc. reflexivity.
+  Qed.
+
+  Lemma list_eq_map_seq {A} (l : list A) d (f : nat -> A) :
+    length l = n -> (forall i, (i < n)%nat -> nth i l d = f i) -> l = map f (seq 0 n).
+  Proof.
+    intros Hlen Hnth. apply (nth_ext _ _ d (f 0%nat)).
+    - rewrite map_length, seq_length. auto.
+    - intros i Hi. rewrite Hlen in Hi. rewrite Hnth by auto. rewrite map_nth. rewrite seq_nth by auto. reflexivity.
+  Qed.
+
+  Theorem rooms_of_borders_correct allow :
+    rooms_of_borders (Z.of_nat H) (Z.of_nat W) allow vg hg
+    = Ok (rooms_to_pv (map (room_cells_of cells) (seq 0 n))).
+  Proof.
+    unfold rooms_of_borders. fold cells.
+    destruct fill_all_correct as (g & Hfa & Hw & Hg). rewrite Hfa.
+    assert (Hred : (if allow then Ok tt else redundant_check (Z.of_nat H) (Z.of_nat W) vg hg g cells) = Ok tt).
+    { destruct allow; auto. apply redundant_ok; auto. intros c Hc. apply cells_inb; auto. }
+    rewrite Hred. rewrite Nat2Z.id.
+    destruct (collect_inv g Hg cells [] (repeat [] n)) as (rs' & Hco & Hlen & Hrs).
+    - intros c Hc. apply cells_inb; auto.
+    - apply repeat_length.
+    - intros i Hi. rewrite nth_repeat. reflexivity.
+    - rewrite Hco. simpl in Hrs. f_equal. unfold rooms_to_pv. f_equal.
+      rewrite (list_eq_map_seq rs' [] (fun i => map cell_to_pv (room_cells_of cells i)) Hlen Hrs).
+      rewrite !map_map. reflexivity.
   Qed.
 End Fill.
